@@ -59,6 +59,32 @@ pub fn state_problems(states: &[StoreState], key: &MasterKey, baseline: &Baselin
     out
 }
 
+/// commands that remove snapshots in favour of a replacement they write themselves (rewrite with forget, merge with
+/// delete): at no point may an original be gone while its replacement is not there yet - that is a previously
+/// existing snapshot losing all of its data
+pub fn replacement_problems(states: &[StoreState], key: &MasterKey, baseline: &Baseline, variant: &str) -> Vec<(String, String)> {
+    let mut out = Vec::new();
+    if variant != "rewrite-forget" && variant != "merge-delete" {
+        return out;
+    }
+    let rk = crate::rawrepo::RawKey::from_master(key);
+    let Ok(now) = crate::rawrepo::read_snapshots(&rk, &states[0]) else { return out };
+    for id in baseline.keys() {
+        if states[0].has(FileType::Snapshot, id) {
+            continue;
+        }
+        let replaced = if variant == "rewrite-forget" {
+            now.iter().any(|(nid, v)| !baseline.contains_key(nid) && v["original"].as_str().is_some_and(|o| o == id.to_hex().as_str()))
+        } else {
+            now.keys().any(|nid| !baseline.contains_key(nid))
+        };
+        if !replaced {
+            out.push(("original-removed-before-replacement-stored".to_string(), format!("snapshot {id} has been removed but the snapshot that replaces it is not in the repository")));
+        }
+    }
+    out
+}
+
 pub struct Scenario {
     pub cfg: GenCfg,
     pub key: MasterKey,
@@ -279,7 +305,8 @@ fn one_case(ctx: &Ctx, case: u64, r: &mut Rng, rep: &mut Report, n_variants_hint
             }
             rep.evaluations += 1;
             rep.count("crash_prefix_states_evaluated", 1);
-            let probs = state_problems(&st, &sc.key, &baseline, if k == evs.len() { new_model.as_ref() } else { new_model.as_ref() }, r);
+            let mut probs = state_problems(&st, &sc.key, &baseline, if k == evs.len() { new_model.as_ref() } else { new_model.as_ref() }, r);
+            probs.extend(replacement_problems(&st, &sc.key, &baseline, &name));
             if let Some((sig, d)) = probs.into_iter().next() {
                 rep.violation(
                     case,
@@ -330,7 +357,8 @@ fn one_case(ctx: &Ctx, case: u64, r: &mut Rng, rep: &mut Report, n_variants_hint
             }
             uni.set_fault(None);
             let st = uni.snapshot();
-            let probs = state_problems(&st, &sc.key, &baseline, new_model.as_ref(), r);
+            let mut probs = state_problems(&st, &sc.key, &baseline, new_model.as_ref(), r);
+            probs.extend(replacement_problems(&st, &sc.key, &baseline, &name));
             if let Some((sig, d)) = probs.into_iter().next() {
                 rep.violation(
                     case,
